@@ -1081,7 +1081,7 @@ def run(ctx):
     assert ref_parse(b"HTTP/1.1 200 OK\r\nX: y\r\n", b"GET")["head"] == "incomplete"
     h = Harness()
     try:
-        for i in ctx.cases(360, 12000):
+        for i in ctx.cases(360, 18000):
             rng = ctx.case_rng(i)
             desc = gen_h11_response(rng) if rng.random() < 0.25 else gen_response(rng)
             run_response(ctx, h, desc, rng, sample=i < 2 * ctx.nshards)
